@@ -5,8 +5,8 @@
    What the code reads from one rune is an OBSERVATION record filled by the driver from the library's
    own functions (language.LookupScript, lookupDelimIndex, ignoreFaceChange,
    unicodedata.LookupVerticalOrientation(s).Orientation(r), Fontmap.ResolveFace(r) after SetScript(s)).
-   External results are inputs of the model: the x/text bidi run list of the sub-range, NewLangID of the
-   input language, LangID.UseScript and ScriptToLang. *)
+   External results are inputs of the model: the bidi run list of the sub-range (x/text paragraph by paragraph, see
+   splitByBidi below), NewLangID of the input language, LangID.UseScript and ScriptToLang. *)
 From Coq Require Export List Bool ZArith Lia.
 From TV Require Export Lib.GoNum Lib.Res.
 Export ListNotations.
@@ -80,7 +80,13 @@ Definition reset (s : segmenter) : segmenter :=
   mkSeg (buf_reset (s_in s)) (buf_reset (s_out s)) [] (rev (s_stack s) ++ s_stack_stale s).
 
 (* ---- splitByBidi ------------------------------------------------------------------------- *)
-(* bidi: None = Order() failed or NumRuns() = 0; otherwise per run (end rune from run.Pos(), RightToLeft?) *)
+(* bidi: per run (end rune relative to RunStart, RightToLeft?) of the list splitByBidi builds: one x/text analysis per
+   paragraph of the range (a rune of bidi class B closes its paragraph), run.Pos() shifted by the paragraph start, a
+   paragraph for which Order() fails or returns no run counted as one run in the caller's direction, a run with the
+   direction of the one before it merged into it (appendBidiRun).  The paragraph loop itself is not modelled: the
+   driver rebuilds the list from its own x/text calls and the correspondence compares the outcome.
+   None / Some [] = the range as one run in the caller's direction (what a list-less analysis amounts to; the current
+   code never produces it for a non-empty range). *)
 Fixpoint bidi_loop (runs : list (Z * bool)) (text_start : Z) (inp : input) : list input :=
   match runs with
   | [] => []
